@@ -311,6 +311,11 @@ def outer_items(fam, tier):
             for modes in itertools.permutations(range(n)):
                 for skip in [None] + list(range(n)):
                     out.append(["multi_mode_dot", n, list(modes), skip])
+        for n in (2, 3):
+            for m1 in range(n):
+                for m2 in range(n):
+                    for w in (False, True):
+                        out.append(["mttkrp", n, m1, m2, w])
         return out
     if fam == "mttkrp":
         shp = list(shapes((2, 3), d4)) + list(shapes((4,), d3))
@@ -869,6 +874,26 @@ def run_histories(case, rn):
             for impl in BACKENDS:
                 rn.call("multi_mode_dot", impl, lambda f: f(t, lst, modes=mds, skip=sk), [ref], f"history-step{step + 1},shared-modes-and-operand-lists",
                         lambda: f"call {step + 1} sharing operand list and modes={modes} (now {mds}): multi_mode_dot(T{brief(t)}, ops, modes, skip={sk})")
+        return True
+    if kind == "mttkrp":
+        from tensorly.tenalg.core_tenalg.mttkrp import unfolding_dot_khatri_rao_memory
+
+        _, n, m1, m2, w = item
+        shape = [2, 3, 2][:n]
+        t = val(shape, 0, cplx, seed)
+        facs = [val((sd, 2), 1 + i, cplx, seed, nonzero=True) for i, sd in enumerate(shape)]
+        weights = weights_for(2, seed) if w else None
+        pristine = [f.copy() for f in facs]
+        pw = None if weights is None else weights.copy()
+        cp = (weights, facs)                 # ONE (weights, factors) object for all calls, as inside an ALS loop
+        for step, mode in enumerate([m1, m2]):
+            ref = ref_np(R.mttkrp(rt(t), None if pw is None else [x.item() for x in pw], [R2.conj_rt(rt(f)) for f in pristine], mode))
+            for impl in BACKENDS:
+                rn.call("unfolding_dot_khatri_rao", impl, lambda f: f(t, cp, mode), [ref], f"history-step{step + 1},shared-factor-objects",
+                        lambda: f"call {step + 1} (mode {mode}) of a sequence sharing the (weights, factors) objects: unfolding_dot_khatri_rao(T{brief(t)}, cp, {mode})")
+            rn.call("unfolding_dot_khatri_rao_memory", "memory", lambda f: unfolding_dot_khatri_rao_memory(t, cp, mode), [ref],
+                    f"history-step{step + 1},shared-factor-objects", lambda: f"call {step + 1}: unfolding_dot_khatri_rao_memory(T, cp, {mode})",
+                    label="unfolding_dot_khatri_rao_memory")
         return True
     raise ValueError(kind)
 
